@@ -68,6 +68,8 @@ fn main() {
         only,
         max_cases,
         budget_ms,
+        case_ms: arg(&args, "--case-ms").and_then(|s| s.parse().ok()).unwrap_or(0),
+        case_start: std::cell::Cell::new(Instant::now()),
         mode,
         lite,
         trace,
